@@ -53,10 +53,26 @@ def gen_case(rng, k):
             extra += "RDATE:" + ",".join(evgen.fmt_dt(meta["dtstart"], z=not meta["is_date"]) for _ in range(rng.randint(1, 4))) + "\n"
         # an exception rule that ticks much faster than the rule it is applied to is a stratum of its own: the filter walks
         # the exception stream event by event (listed finding)
-        fx = x.split(";")[0].split("=")[1]
-        fine = fx in ("SECONDLY", "MINUTELY")
-        return text.replace("END:VEVENT", extra + "END:VEVENT"), ("exceptions/exrule-" + fx.lower() if fine else "exceptions")
+        return text.replace("END:VEVENT", extra + "END:VEVENT"), ("exceptions/exrule-dense" if per_day(x) >= 1440 else "exceptions")
     return text, "full-language"
+
+
+def per_day(rule):
+    """upper estimate of how many events a rule produces per day"""
+    kv = dict(p.split("=", 1) for p in rule.split(";") if "=" in p)
+    n = lambda k: max(1, len(kv[k].split(","))) if k in kv else 1
+    try:
+        iv = max(1, int(kv.get("INTERVAL", "1")))
+    except ValueError:
+        iv = 1
+    f = kv.get("FREQ", "")
+    if f == "SECONDLY":
+        return 86400.0 / iv
+    if f == "MINUTELY":
+        return 1440.0 / iv * n("BYSECOND")
+    if f == "HOURLY":
+        return 24.0 / iv * n("BYMINUTE") * n("BYSECOND")
+    return n("BYHOUR") * n("BYMINUTE") * n("BYSECOND")
 
 
 def run_one(srv_asan, plain_exe, part, text, stratum, npop, style):
